@@ -20,6 +20,60 @@ EXTRA_CONFIGS = ["radv"]
 WIDTH = {"u8": 1, "u16": 2, "u32": 4, "&std::net::Ipv6Addr": 16}
 
 
+def _cval(v):
+    v = norm(v)
+    if v[0] == "const" and isinstance(v[1], int) and not isinstance(v[1], bool):
+        return v[1]
+    if v[0] == "field" and norm(v[1])[0] == "const" and isinstance(norm(v[1])[1], int):
+        return norm(v[1])[1]
+    return None
+
+
+_WTY = {1: "u8", 2: "u16", 4: "u32"}
+
+
+def _regroup(w, widths):
+    """re-chunk a sequence of writes (type, value, ...) to the expected widths where only constants have to be merged or split:
+    `0_u8, 0_u8` and `0_u16` put the same octets on the wire (big-endian), so the layout rules must not tell them apart"""
+    out, i = [], 0
+    w = list(w)
+    for want in widths:
+        if i >= len(w):
+            break
+        have = WIDTH.get(w[i][0])
+        if have == want or have is None or want not in _WTY:
+            out.append(w[i])
+            i += 1
+            continue
+        if have < want:
+            # merge following constants
+            tot, val, j = 0, 0, i
+            while j < len(w) and tot < want and WIDTH.get(w[j][0]) is not None and _cval(w[j][1]) is not None:
+                tot += WIDTH[w[j][0]]
+                val = (val << (8 * WIDTH[w[j][0]])) | _cval(w[j][1])
+                j += 1
+            if tot == want:
+                out.append((_WTY[want], ("const", val)) + tuple(w[i][2:]))
+                i = j
+                continue
+            out.append(w[i])
+            i += 1
+            continue
+        # have > want: split a constant
+        c = _cval(w[i][1])
+        if c is not None and have in _WTY:
+            rest = have - want
+            out.append((_WTY[want], ("const", c >> (8 * rest))) + tuple(w[i][2:]))
+            w[i] = (_WTY.get(rest, "?"), ("const", c & ((1 << (8 * rest)) - 1))) + tuple(w[i][2:])
+            if rest not in _WTY:
+                i += 1
+            continue
+        out.append(w[i])
+        i += 1
+    out.extend(w[i:])
+    return out
+
+
 def _writes(P, b, T, cfg, blocks=None):
     out = []
     for bb, tm in b.calls():
@@ -225,6 +279,7 @@ def _encoder(ctx, b):
         if any(bb in l for l in loops):
             break
         hdr.append((g, v, tm))
+    hdr = _regroup(hdr, [1, 1, 2, 1, 1, 2, 4, 4])
     widths = [WIDTH.get(g) for g, _, _ in hdr]
     ctx.check(widths == [1, 1, 2, 1, 1, 2, 4, 4], "R3", "header:type1+code1+cksum2+hop1+flags1+lifetime2+reachable4+retrans4", ctx.where(b), "found %s" % widths)
     if len(hdr) == 8:
@@ -321,12 +376,12 @@ def _encoder(ctx, b):
         ctx.check(bool(w) and cv(w[0][1]) == tables.ND_OPT[key] and WIDTH.get(w[0][0]) == 1, "R3", "option:%s:type=%d" % (name, tables.ND_OPT[key]), ctx.where(b),
                   "first octet written in the %s arm: %s" % (name, show(w[0][1]) if w else None))
     # MTU: type len=1 reserved(2)=0 mtu(4)
-    w = arm_writes("Mtu")
+    w = _regroup(arm_writes("Mtu"), [1, 1, 2, 4])
     ctx.check([WIDTH.get(x[0]) for x in w] == [1, 1, 2, 4] and cv(w[1][1]) == 1, "R3", "option:Mtu:layout=1+1+2+4,len=1", ctx.where(b), str([x[0] for x in w]))
     if len(w) == 4:
         ctx.check(w[2][1] == ("const", 0), "R6", "option:Mtu:reserved=0", ctx.where(b), "")
     # Prefix: type len=4 plen flags valid preferred reserved(4)=0 prefix(16)
-    w = arm_writes("Prefix")
+    w = _regroup(arm_writes("Prefix"), [1, 1, 1, 1, 4, 4, 4, 16])
     ctx.check([WIDTH.get(x[0]) for x in w] == [1, 1, 1, 1, 4, 4, 4, 16] and cv(w[1][1]) == 4, "R3", "option:Prefix:layout=1+1+1+1+4+4+4+16,len=4", ctx.where(b), str([x[0] for x in w]))
     if len(w) == 8:
         ctx.check(w[6][1] == ("const", 0), "R6", "option:Prefix:reserved2=0", ctx.where(b), "")
@@ -344,7 +399,7 @@ def _encoder(ctx, b):
                   "RFC 4861 4.6.2: bits of the Prefix field beyond the prefix length must be zero; the encoder writes the configured address "
                   "as is, so `prefix: 2001:db8::1/64` puts host bits on the wire")
     # RDNSS: type len=1+2n reserved(2)=0 lifetime(4) then servers
-    w = arm_writes("RecursiveDnsServers")
+    w = _regroup(arm_writes("RecursiveDnsServers"), [1, 1, 2, 4])
     ctx.check([WIDTH.get(x[0]) for x in w[:4]] == [1, 1, 2, 4], "R3", "option:Rdnss:header=1+1+2+4", ctx.where(b), str([x[0] for x in w]))
     if len(w) >= 4:
         ctx.check(w[2][1] == ("const", 0), "R6", "option:Rdnss:reserved=0", ctx.where(b), "")
@@ -379,11 +434,11 @@ def _encoder(ctx, b):
         ctx.check(bool(rem) and inloop, "R3", "option:%s:padded-to-multiple-of-8" % name, ctx.where(b), "")
     for name in ("DnsSearchList", "CaptivePortal"):
         _padded_length(ctx, b, T, cfg, loops, arms.get(name, set()), name, out_local)
-    w = arm_writes("DnsSearchList")
+    w = _regroup(arm_writes("DnsSearchList"), [1, 1, 2, 4])
     if len(w) >= 3:
         ctx.check(w[2][1] == ("const", 0), "R6", "option:Dnssl:reserved=0", ctx.where(b), "")
     # PREF64: type len=2 scaled|plc(2) prefix 12 octets
-    w = arm_writes("Pref64")
+    w = _regroup(arm_writes("Pref64"), [1, 1, 2])
     ctx.check(len(w) >= 3 and [WIDTH.get(x[0]) for x in w[:3]] == [1, 1, 2] and cv(w[1][1]) == 2, "R3", "option:Pref64:header=1+1+2,len=2", ctx.where(b), str([x[0] for x in w]))
     if len(w) >= 3:
         _plc(ctx, b, T, cfg, w[2], arms.get("Pref64", set()), "encode")
